@@ -260,7 +260,7 @@ class StreamSession:
         callback_exc: Exception | None = None
         for _ in range(_MAX_DRAIN):
             try:
-                _read_batch_with_log_check(self._output_reader, on_log, self._external_config, shm=self._shm)
+                skipped = _read_batch_with_log_check(self._output_reader, on_log, self._external_config, shm=self._shm)
             except RpcError:
                 continue
             except (StopIteration, pa.ArrowInvalid, OSError):
@@ -272,6 +272,10 @@ class StreamSession:
                 # then let the exception out (see _read_unary_response).
                 callback_exc = exc
                 on_log = None
+                continue
+            # A data batch stepped over here is handed to nobody: free the SHM
+            # region it arrived in, or it stays allocated for good.
+            skipped.release()
         if callback_exc is not None:
             raise callback_exc
 
